@@ -135,6 +135,22 @@ def fill (a : List α) (off n : Nat) (v : α) : List α :=
   a.take off ++ List.replicate n v ++ a.drop (off + n)
 
 
+/-! ### run-time-length `memcpy` (stage 3 of the translator, NOTES_cfun3.md) -/
+
+/-- `memcpy(dst + off, src + soff, n)` between two different arrays: `n` elements of `dst` from `off` on are replaced by
+the `n` elements of `src` from `soff` on (meaningful when both ranges are inside their arrays: `f_defined` asks for it) -/
+def copyInto (dst : List α) (off : Nat) (src : List α) (soff n : Nat) : List α :=
+  dst.take off ++ (src.drop soff).take n ++ dst.drop (off + n)
+
+/-- byte `i` (little-endian) of `x` -/
+def byteOf (x : BitVec w) (i : Nat) : Nat := (x.toNat >>> (8 * i)) % 256
+
+/-- `memcpy(&v, a + off, n)` with a run-time `n ≤ sizeof v` on a little-endian host: the low `n` bytes of `v` are replaced
+by `a[off .. off+n)`, the other bytes of `v` keep their value -/
+def ldPartLE (old : BitVec w) (a : List UInt8) (off n : Nat) : BitVec w :=
+  BitVec.ofNat w (((List.range (w / 8)).map (fun i =>
+    (if i < n then (a.getD (off + i) 0).toNat else byteOf old i) <<< (8 * i))).foldl (· ||| ·) 0)
+
 /-! ### values crossing the C / Lean boundary in the translator self-check (stage 2) -/
 
 /-- an integer bit pattern, or an array of them -/
